@@ -172,25 +172,53 @@ def Tree.insertAll [LinOrd α] (c : TreeCfg) (s : Tree α β) : List (α × β) 
 section Lemmas
 variable [LinOrd α]
 
+omit [LinOrd α] in
+theorem T.length_slots (t : T α β) : t.slots.length = t.size := by
+  simp [T.slots, T.size_eq_length]
+
+theorem Tree.openMut_eq {c : TreeCfg} {s : Tree α β} (h : s.Inv c) :
+    s.openMut c = { s with cap := s.slots } := by
+  unfold Tree.openMut
+  have := h.cap_le
+  have := h.slots_le
+  split
+  · rw [Nat.mod_eq_of_lt (by omega)]
+  · have : s.cap = s.slots := by omega
+    cases s; simp_all
+
 theorem Tree.inv_init (c : TreeCfg) (slots cap : Nat) (h1 : cap ≤ slots) (h2 : slots ≤ c.W)
     (h3 : c.wrap = true ∨ slots < c.W) : (Tree.init slots cap : Tree α β).Inv c := by
-  sorry
+  have hs : (T.nil : T α β).slots = [] := rfl
+  refine ⟨trivial, trivial, rfl, ?_, ?_, ?_, ?_, h1, h2, h3⟩
+  · simp [Tree.init, hs]
+  · simp [Tree.init, hs]
+  · simp [Tree.init, hs]
+  · simp [Tree.init]
 
 theorem Tree.inv_openMut {c : TreeCfg} {s : Tree α β} (h : s.Inv c) : (s.openMut c).Inv c := by
-  sorry
+  rw [Tree.openMut_eq h]
+  have := h.seq_le
+  have := h.cap_le
+  exact ⟨h.bst, h.bal, h.size_eq, h.nodup, h.range, h.count, by simp only; omega, Nat.le_refl _,
+    h.slots_le, h.nowrap⟩
 
 theorem Tree.openMut_cap {c : TreeCfg} {s : Tree α β} (h : s.Inv c) :
     (s.openMut c).cap = s.slots ∧ (s.openMut c).root = s.root ∧ (s.openMut c).size = s.size ∧
     (s.openMut c).free = s.free ∧ (s.openMut c).seq = s.seq ∧ (s.openMut c).slots = s.slots := by
-  sorry
+  rw [Tree.openMut_eq h]
+  simp
 
 /-- Re-opening a buffer whose size matches its capacity changes nothing. -/
 theorem Tree.openMut_id (c : TreeCfg) (s : Tree α β) (h : s.slots ≤ s.cap) : s.openMut c = s := by
-  sorry
+  unfold Tree.openMut
+  rw [if_neg (by omega)]
 
 theorem Tree.inv_extend {c : TreeCfg} {s : Tree α β} (h : s.Inv c) (n : Nat)
     (hok : (TreeOp.extend n : TreeOp α β).ok c s) : (s.extend n).Inv c := by
-  sorry
+  obtain ⟨h1, h2⟩ := hok
+  have := h.cap_le
+  exact ⟨h.bst, h.bal, h.size_eq, h.nodup, h.range, h.count, h.seq_le,
+    by simp only [Tree.extend]; omega, h1, h2⟩
 
 /-- Allocation never faults on a non-full well-formed state, returns a slot that
     is in range and not in use, and keeps the rest of the allocator invariant
@@ -200,7 +228,108 @@ theorem Tree.alloc_spec {c : TreeCfg} {s : Tree α β} (h : s.Inv c) (hnf : s.si
       s'.root = s.root ∧ s'.size = s.size + 1 ∧ s'.cap = s.cap ∧ s'.slots = s.slots ∧
       ((s.free = i :: s'.free ∧ s'.seq = s.seq) ∨
        (s.free = [] ∧ s'.free = [] ∧ i = s.seq ∧ s'.seq = s.seq + 1)) := by
-  sorry
+  have hsz := h.size_eq
+  have hcnt := h.count
+  have hseq := h.seq_le
+  have hcap := h.cap_le
+  have hsl := h.slots_le
+  have hlen := T.length_slots s.root
+  rw [List.length_append] at hcnt
+  unfold Tree.alloc
+  split
+  · rename_i i rest hfree
+    have hr := h.range i (by simp [hfree])
+    have hnd := h.nodup
+    rw [hfree] at hnd
+    have hni : i ∉ s.root.slots := by
+      intro hm
+      exact (List.nodup_append.1 hnd).2.2 i hm i (by simp) rfl
+    rw [if_neg (by omega), if_neg (by omega), if_neg (by omega)]
+    exact ⟨_, i, rfl, hr.1, by omega, hni, rfl, rfl, rfl, rfl, Or.inl ⟨hfree, rfl⟩⟩
+  · rename_i hfree
+    rw [hfree] at hcnt
+    simp only [List.length_nil] at hcnt
+    have hni : s.seq ∉ s.root.slots := by
+      intro hm
+      have := h.range s.seq (by simp [hm])
+      omega
+    have hw : ¬ ((!c.wrap && decide (s.seq + 1 > c.W)) = true) := by
+      rcases h.nowrap with hw | hw
+      · simp [hw]
+      · simp; intro _; omega
+    rw [if_neg (by omega), if_neg (by omega), if_neg hw, if_neg (by omega), if_neg (by omega)]
+    exact ⟨_, s.seq, rfl, by omega, by omega, hni, rfl, rfl, rfl, rfl, Or.inr ⟨hfree, hfree, rfl, rfl⟩⟩
+
+theorem T.slots_ins_perm {t : T α β} (hb : t.Bst) (i : Nat) (k : α) (v : β)
+    (hf : t.find k = none) : (t.ins i k v).slots.Perm (i :: t.slots) := by
+  unfold T.slots
+  rw [T.toList_ins hb i k v hf]
+  exact (perm_insL (i, k, v) t.toList).map _
+
+theorem Tree.inv_insert_aux {c : TreeCfg} {s s1 : Tree α β} (h : s.Inv c) {k : α} {v : β} {i : Nat}
+    (hf : s.root.find k = none) (hnf : s.size < s.cap)
+    (hroot : s1.root = s.root) (hsize : s1.size = s.size + 1) (hcap : s1.cap = s.cap)
+    (hslots : s1.slots = s.slots) (hi1 : 1 ≤ i) (hni : i ∉ s.root.slots)
+    (hcase : (s.free = i :: s1.free ∧ s1.seq = s.seq) ∨
+      (s.free = [] ∧ s1.free = [] ∧ i = s.seq ∧ s1.seq = s.seq + 1)) :
+    ({ s1 with root := s1.root.ins i k v } : Tree α β).Inv c := by
+  have hfl : findL k s.root.toList = none := by rw [← T.find_eq_findL h.bst]; exact hf
+  have hperm := T.slots_ins_perm h.bst i k v hf
+  have hperm2 : ((s.root.ins i k v).slots ++ s1.free).Perm (i :: (s.root.slots ++ s1.free)) :=
+    hperm.append_right _
+  have hlen := T.length_slots s.root
+  have hsz := h.size_eq
+  have hkey : (i :: (s.root.slots ++ s1.free)).Nodup ∧
+      (∀ j ∈ i :: (s.root.slots ++ s1.free), 1 ≤ j ∧ j < s1.seq) ∧
+      (i :: (s.root.slots ++ s1.free)).length + 1 = s1.seq ∧ s1.seq ≤ s.cap + 1 := by
+    rcases hcase with ⟨h1, h2⟩ | ⟨h1, h2, h3, h4⟩
+    · have hp : (s.root.slots ++ s.free).Perm (i :: (s.root.slots ++ s1.free)) := by
+        rw [h1]; exact List.perm_middle
+      refine ⟨hp.nodup_iff.1 h.nodup, ?_, ?_, ?_⟩
+      · intro j hj; rw [h2]; exact h.range j (hp.mem_iff.2 hj)
+      · rw [← hp.length_eq, h2]; exact h.count
+      · rw [h2]; exact h.seq_le
+    · have hnd := h.nodup
+      have hr := h.range
+      have hc := h.count
+      rw [h1] at hnd hr hc
+      rw [h2, h4]
+      simp only [List.append_nil] at *
+      refine ⟨List.nodup_cons.2 ⟨hni, hnd⟩, ?_, ?_, ?_⟩
+      · intro j hj
+        rcases List.mem_cons.1 hj with rfl | hj
+        · omega
+        · have := hr j hj; omega
+      · simp only [List.length_cons]; omega
+      · omega
+  refine ⟨?_, ?_, ?_, ?_, ?_, ?_, ?_, ?_, ?_, ?_⟩
+  · show (s1.root.ins i k v).Bst
+    rw [hroot, T.bst_iff_sorted, T.toList_ins h.bst _ _ _ hf]
+    exact sorted_insL ((T.bst_iff_sorted _).1 h.bst) (i, k, v) hfl
+  · show (s1.root.ins i k v).Bal
+    rw [hroot]
+    exact (T.ins_bal h.bal i k v).1
+  · show s1.size = (s1.root.ins i k v).size
+    rw [hroot, hsize, T.size_eq_length (T.ins _ _ _ _), T.toList_ins h.bst _ _ _ hf, length_insL,
+      ← T.size_eq_length, h.size_eq]
+  · show ((s1.root.ins i k v).slots ++ s1.free).Nodup
+    rw [hroot]
+    exact hperm2.nodup_iff.2 hkey.1
+  · show ∀ j ∈ (s1.root.ins i k v).slots ++ s1.free, 1 ≤ j ∧ j < s1.seq
+    rw [hroot]
+    intro j hj
+    exact hkey.2.1 j (hperm2.mem_iff.1 hj)
+  · show ((s1.root.ins i k v).slots ++ s1.free).length + 1 = s1.seq
+    rw [hroot, hperm2.length_eq]
+    exact hkey.2.2.1
+  · show s1.seq ≤ s1.cap + 1
+    rw [hcap]; exact hkey.2.2.2
+  · show s1.cap ≤ s1.slots
+    rw [hcap, hslots]; exact h.cap_le
+  · show s1.slots ≤ c.W
+    rw [hslots]; exact h.slots_le
+  · show c.wrap = true ∨ s1.slots < c.W
+    rw [hslots]; exact h.nowrap
 
 /-- `insert` on a well-formed state: never faults; refuses exactly for a present
     key or a full tree (state unchanged); otherwise the in-order list gains the
@@ -211,7 +340,25 @@ theorem Tree.insert_spec {c : TreeCfg} {s : Tree α β} (h : s.Inv c) (k : α) (
       ∃ s' i, s.insert c k v = .ok (s', some i) ∧ s'.Inv c ∧
         s'.root.toList = insL (i, k, v) s.root.toList ∧ i ∉ s.root.slots ∧ 1 ≤ i ∧ i ≤ s.slots ∧
         s'.cap = s.cap ∧ s'.slots = s.slots ∧ s'.size = s.size + 1) := by
-  sorry
+  unfold Tree.insert
+  by_cases hfind : (s.root.find k).isSome
+  · left
+    exact ⟨Or.inl hfind, by rw [if_pos hfind]⟩
+  · by_cases hfull : s.size ≥ s.cap
+    · left
+      refine ⟨Or.inr hfull, ?_⟩
+      rw [if_neg hfind, if_pos (by simp [Tree.isFull, hfull])]
+    · right
+      have hnone : s.root.find k = none := by simpa using hfind
+      have hnf : s.size < s.cap := by omega
+      obtain ⟨s1, i, ha, hi1, hi2, hni, hroot, hsize, hcap, hslots, hcase⟩ := Tree.alloc_spec h hnf
+      refine ⟨hnone, hnf, { s1 with root := s1.root.ins i k v }, i, ?_,
+        Tree.inv_insert_aux h hnone hnf hroot hsize hcap hslots hi1 hni hcase, ?_, hni, hi1, hi2,
+        hcap, hslots, hsize⟩
+      · rw [if_neg hfind, if_neg (by simp [Tree.isFull]; omega), ha]
+      · show (s1.root.ins i k v).toList = _
+        rw [hroot]
+        exact T.toList_ins h.bst i k v hnone
 
 /-- `remove` on a well-formed state. -/
 theorem Tree.remove_spec {c : TreeCfg} {s : Tree α β} (h : s.Inv c) (k : α) :
@@ -219,7 +366,48 @@ theorem Tree.remove_spec {c : TreeCfg} {s : Tree α β} (h : s.Inv c) (k : α) :
     (∃ i v s', s.root.find k = some (i, v) ∧ s.remove k = .ok (s', some v) ∧ s'.Inv c ∧
         s'.root.toList = delL k s.root.toList ∧ s'.free = i :: s.free ∧
         s'.cap = s.cap ∧ s'.slots = s.slots ∧ s'.size + 1 = s.size ∧ s'.seq = s.seq) := by
-  sorry
+  cases hfind : s.root.find k with
+  | none =>
+    left
+    exact ⟨rfl, by simp [Tree.remove, hfind]⟩
+  | some p =>
+    obtain ⟨i, v⟩ := p
+    right
+    have hfl : findL k s.root.toList = some (i, v) := by
+      rw [← T.find_eq_findL h.bst]; exact hfind
+    have hperm := perm_delL hfl
+    have hlenL := length_delL hfl
+    have hsz : s.size ≠ 0 := by rw [h.size_eq, T.size_eq_length]; omega
+    refine ⟨i, v, { s with root := s.root.del k, free := i :: s.free, size := s.size - 1 }, rfl,
+      ?_, ?_, T.toList_del h.bst k, rfl, rfl, rfl, ?_, rfl⟩
+    · simp [Tree.remove, hfind, hsz]
+    · have hps : s.root.slots.Perm (i :: (s.root.del k).slots) := by
+        unfold T.slots
+        rw [T.toList_del h.bst]
+        exact hperm.map (·.1)
+      have hp2 : (s.root.slots ++ s.free).Perm ((s.root.del k).slots ++ i :: s.free) :=
+        (hps.append_right _).trans List.perm_middle.symm
+      refine ⟨?_, (T.del_bal h.bal k).1, ?_, hp2.nodup_iff.1 h.nodup, ?_, ?_, h.seq_le, h.cap_le,
+        h.slots_le, h.nowrap⟩
+      · show (s.root.del k).Bst
+        rw [T.bst_iff_sorted, T.toList_del h.bst]
+        exact sorted_delL ((T.bst_iff_sorted _).1 h.bst) k
+      · show s.size - 1 = (s.root.del k).size
+        rw [T.size_eq_length (T.del _ _), T.toList_del h.bst, h.size_eq, T.size_eq_length]
+        omega
+      · intro j hj
+        exact h.range j (hp2.mem_iff.2 hj)
+      · show ((s.root.del k).slots ++ i :: s.free).length + 1 = s.seq
+        rw [← hp2.length_eq]
+        exact h.count
+    · show s.size - 1 + 1 = s.size
+      omega
+
+theorem map_fst_setL (k : α) (v : β) (l : List (Entry α β)) :
+    (setL k v l).map (·.1) = l.map (·.1) := by
+  induction l with
+  | nil => rfl
+  | cons x rest ih => simp only [setL]; split <;> simp [ih]
 
 /-- `get_mut` + write on a well-formed state. -/
 theorem Tree.update_spec {c : TreeCfg} {s : Tree α β} (h : s.Inv c) (k : α) (v : β) :
@@ -228,45 +416,220 @@ theorem Tree.update_spec {c : TreeCfg} {s : Tree α β} (h : s.Inv c) (k : α) (
         (s.update k v).1.root.toList = setL k v s.root.toList ∧
         (s.update k v).1.cap = s.cap ∧ (s.update k v).1.slots = s.slots ∧
         (s.update k v).1.size = s.size ∧ (s.update k v).1.free = s.free ∧ (s.update k v).1.seq = s.seq) := by
-  sorry
+  cases hfind : s.root.find k with
+  | none =>
+    left
+    exact ⟨rfl, by simp [Tree.update, hfind]⟩
+  | some p =>
+    right
+    have hu : s.update k v = ({ s with root := s.root.setVal k v }, true) := by
+      simp [Tree.update, hfind]
+    rw [hu]
+    refine ⟨rfl, rfl, ?_, T.toList_setVal h.bst k v, rfl, rfl, rfl, rfl, rfl⟩
+    have hsl : (s.root.setVal k v).slots = s.root.slots := by
+      unfold T.slots
+      rw [T.toList_setVal h.bst, map_fst_setL]
+    refine ⟨?_, (T.setVal_bal h.bal k v).1, ?_, ?_, ?_, ?_, h.seq_le, h.cap_le, h.slots_le, h.nowrap⟩
+    · show (s.root.setVal k v).Bst
+      rw [T.bst_iff_sorted, T.toList_setVal h.bst]
+      exact sorted_setL ((T.bst_iff_sorted _).1 h.bst) k v
+    · show s.size = (s.root.setVal k v).size
+      rw [T.size_eq_length (T.setVal _ _ _), T.toList_setVal h.bst, length_setL, ← T.size_eq_length]
+      exact h.size_eq
+    · show ((s.root.setVal k v).slots ++ s.free).Nodup
+      rw [hsl]; exact h.nodup
+    · show ∀ j ∈ (s.root.setVal k v).slots ++ s.free, 1 ≤ j ∧ j < s.seq
+      rw [hsl]; exact h.range
+    · show ((s.root.setVal k v).slots ++ s.free).length + 1 = s.seq
+      rw [hsl]; exact h.count
 
 /-- No operation faults on a well-formed state, and the invariant is preserved. -/
 theorem Tree.step_ok {c : TreeCfg} {s : Tree α β} (h : s.Inv c) (op : TreeOp α β) (hok : op.ok c s) :
     ∃ s', s.step c op = .ok s' ∧ s'.Inv c := by
-  sorry
+  have ho := Tree.inv_openMut h
+  cases op with
+  | insert k v =>
+    rcases Tree.insert_spec ho k v with ⟨_, he⟩ | ⟨_, _, s', i, he, hi, _⟩
+    · exact ⟨s.openMut c, by simp [Tree.step, he, Except.map], ho⟩
+    · exact ⟨s', by simp [Tree.step, he, Except.map], hi⟩
+  | remove k =>
+    rcases Tree.remove_spec ho k with ⟨_, he⟩ | ⟨i, v, s', _, he, hi, _⟩
+    · exact ⟨s.openMut c, by simp [Tree.step, he, Except.map], ho⟩
+    · exact ⟨s', by simp [Tree.step, he, Except.map], hi⟩
+  | update k v =>
+    refine ⟨_, rfl, ?_⟩
+    rcases Tree.update_spec ho k v with ⟨_, he⟩ | ⟨_, _, hi, _⟩
+    · rw [he]; exact ho
+    · exact hi
+  | reopen => exact ⟨_, rfl, ho⟩
+  | extend n => exact ⟨_, rfl, Tree.inv_extend h n hok⟩
 
 /-- Every reachable state satisfies the invariant. -/
 theorem Tree.reach_inv {c : TreeCfg} {s : Tree α β} (h : Tree.Reach c s) : s.Inv c := by
-  sorry
+  induction h with
+  | init slots cap h1 h2 h3 => exact Tree.inv_init c slots cap h1 h2 h3
+  | step op hr hok hs ih =>
+    obtain ⟨s'', he, hi⟩ := Tree.step_ok ih op hok
+    rw [hs] at he
+    cases he
+    exact hi
 
 /-! #### key/value view of the entry-list operations -/
 
 theorem map_insL (e : Entry α β) (l : List (Entry α β)) :
     (insL e l).map (·.2) = insKV e.2 (l.map (·.2)) := by
-  sorry
+  induction l with
+  | nil => rfl
+  | cons x rest ih =>
+    simp only [insL, List.map_cons, insKV]
+    split <;> simp [ih]
 
 theorem map_delL (k : α) (l : List (Entry α β)) :
     (delL k l).map (·.2) = delKV k (l.map (·.2)) := by
-  sorry
+  induction l with
+  | nil => rfl
+  | cons x rest ih =>
+    simp only [delL, List.map_cons, delKV]
+    split <;> simp [ih]
 
 theorem map_setL (k : α) (v : β) (l : List (Entry α β)) :
     (setL k v l).map (·.2) = setKV k v (l.map (·.2)) := by
-  sorry
+  induction l with
+  | nil => rfl
+  | cons x rest ih =>
+    simp only [setL, List.map_cons, setKV]
+    split <;> simp [ih]
 
 theorem getKV_map (k : α) (l : List (Entry α β)) :
     getKV k (l.map (·.2)) = (findL k l).map (·.2) := by
-  sorry
+  induction l with
+  | nil => rfl
+  | cons x rest ih =>
+    simp only [findL, List.map_cons, getKV]
+    split <;> simp [ih]
 
 /-- One operation of the tree equals one operation of the reference map. -/
 theorem Tree.mapStep_refines {c : TreeCfg} {s : Tree α β} (h : s.Inv c) (op : MapOp α β) :
     ∃ s', s.mapStep c op = .ok (s', (s.abs.step op).2) ∧ s'.Inv c ∧ s'.abs = (s.abs.step op).1 ∧
       s'.slots = s.slots := by
-  sorry
+  have hg : ∀ k, getKV k s.abs.m = (s.root.find k).map (·.2) := by
+    intro k
+    rw [T.find_eq_findL h.bst]
+    exact getKV_map k _
+  have hl : s.abs.m.length = s.size := by
+    rw [h.size_eq, T.size_eq_length]
+    simp [Tree.abs]
+  have hcap : s.abs.cap = s.cap := rfl
+  cases op with
+  | insert k v =>
+    rcases Tree.insert_spec h k v with ⟨hc, he⟩ | ⟨hn, hlt, s', i, he, hi, htl, _, _, _, hc', hs', _⟩
+    · have hc2 : (getKV k s.abs.m).isSome ∨ s.abs.m.length ≥ s.abs.cap := by
+        rw [hg, hl, hcap]
+        rcases hc with hc | hc
+        · left; simpa using hc
+        · right; exact hc
+      refine ⟨s, ?_, h, ?_, rfl⟩
+      · simp only [Tree.mapStep, he, Except.map, BMap.step, if_pos hc2, Option.isSome_none]
+      · simp only [BMap.step, if_pos hc2]
+    · have hc2 : ¬ ((getKV k s.abs.m).isSome ∨ s.abs.m.length ≥ s.abs.cap) := by
+        rw [hg, hl, hcap, hn]
+        simp
+        omega
+      refine ⟨s', ?_, hi, ?_, hs'⟩
+      · simp only [Tree.mapStep, he, Except.map, BMap.step, if_neg hc2, Option.isSome_some]
+      · simp only [BMap.step, if_neg hc2]
+        simp only [Tree.abs, htl, map_insL, hc']
+  | remove k =>
+    rcases Tree.remove_spec h k with ⟨hn, he⟩ | ⟨i, v, s', hf, he, hi, htl, _, hc', hs', _, _⟩
+    · have hgk : getKV k s.abs.m = none := by rw [hg, hn]; rfl
+      refine ⟨s, ?_, h, ?_, rfl⟩
+      · simp only [Tree.mapStep, he, Except.map, BMap.step, hgk]
+      · simp only [BMap.step, hgk]
+    · have hgk : getKV k s.abs.m = some v := by rw [hg, hf]; rfl
+      refine ⟨s', ?_, hi, ?_, hs'⟩
+      · simp only [Tree.mapStep, he, Except.map, BMap.step, hgk]
+      · simp only [BMap.step, hgk]
+        simp only [Tree.abs, htl, map_delL, hc']
+  | get k =>
+    refine ⟨s, ?_, h, rfl, rfl⟩
+    simp only [Tree.mapStep, BMap.step, hg, Tree.get]
+  | update k v =>
+    rcases Tree.update_spec h k v with ⟨hn, he⟩ | ⟨hf, hb, hi, htl, hc', hs', _⟩
+    · have hgk : getKV k s.abs.m = none := by rw [hg, hn]; rfl
+      refine ⟨s, ?_, h, ?_, rfl⟩
+      · simp only [Tree.mapStep, he, BMap.step, hgk]
+      · simp only [BMap.step, hgk]
+    · obtain ⟨w, hgk⟩ : ∃ w, getKV k s.abs.m = some w := by
+        rw [hg]
+        cases hfk : s.root.find k with
+        | none => simp [hfk] at hf
+        | some p => exact ⟨p.2, rfl⟩
+      refine ⟨(s.update k v).1, ?_, hi, ?_, hs'⟩
+      · simp only [Tree.mapStep, BMap.step, hgk, hb]
+      · simp only [BMap.step, hgk]
+        simp only [Tree.abs, htl, map_setL, hc']
+  | contains k =>
+    refine ⟨s, ?_, h, rfl, rfl⟩
+    simp only [Tree.mapStep, BMap.step, hg, Tree.contains, Option.isSome_map]
+  | lowest =>
+    refine ⟨s, ?_, h, rfl, rfl⟩
+    simp only [Tree.mapStep, BMap.step, Tree.lowest, T.minKey_eq, Tree.abs, List.head?_map,
+      Option.map_map]
+    rfl
+  | len =>
+    refine ⟨s, ?_, h, rfl, rfl⟩
+    simp only [Tree.mapStep, BMap.step, hl, Tree.len]
+  | isEmpty =>
+    refine ⟨s, ?_, h, rfl, rfl⟩
+    simp only [Tree.mapStep, BMap.step, hl, Tree.isEmpty]
+  | isFull =>
+    refine ⟨s, ?_, h, rfl, rfl⟩
+    simp only [Tree.mapStep, BMap.step, hl, Tree.isFull, hcap]
 
 /-- Whole histories. -/
 theorem Tree.mapRun_refines {c : TreeCfg} {s : Tree α β} (h : s.Inv c) (ops : List (MapOp α β)) :
     ∃ s', s.mapRun c ops = .ok (s', (s.abs.run ops).2) ∧ s'.Inv c ∧ s'.abs = (s.abs.run ops).1 := by
-  sorry
+  induction ops generalizing s with
+  | nil => exact ⟨s, rfl, h, rfl⟩
+  | cons op ops ih =>
+    obtain ⟨s1, he, hi, ha, _⟩ := Tree.mapStep_refines h op
+    obtain ⟨s2, he2, hi2, ha2⟩ := ih hi
+    refine ⟨s2, ?_, hi2, ?_⟩
+    · simp only [Tree.mapRun, he, he2, BMap.run]
+      rw [← ha]
+    · simp only [BMap.run]
+      rw [← ha]
+      exact ha2
+
+/-- Fewer than `cap - size` fresh entries never fill the tree. -/
+theorem Tree.fill_partial {c : TreeCfg} {s : Tree α β} (h : s.Inv c) (kvs : List (α × β))
+    (hnd : (kvs.map (·.1)).Pairwise (fun a b => a < b ∨ b < a))
+    (hfresh : ∀ e ∈ kvs, s.root.find e.1 = none)
+    (hlen : kvs.length + s.size ≤ s.cap) :
+    ∃ s', s.insertAll c kvs = some s' ∧ s'.Inv c ∧ s'.size = s.size + kvs.length ∧ s'.cap = s.cap := by
+  induction kvs generalizing s with
+  | nil => exact ⟨s, rfl, h, by simp, rfl⟩
+  | cons e rest ih =>
+    obtain ⟨k, v⟩ := e
+    have hfk : s.root.find k = none := hfresh (k, v) (by simp)
+    simp only [List.length_cons] at hlen
+    simp only [List.map_cons, List.pairwise_cons] at hnd
+    rcases Tree.insert_spec h k v with ⟨hc, _⟩ | ⟨_, _, s1, i, he, hi, htl, _, _, _, hc1, _, hsz1⟩
+    · rcases hc with hc | hc
+      · simp [hfk] at hc
+      · omega
+    · have hfresh1 : ∀ e ∈ rest, s1.root.find e.1 = none := by
+        intro e he'
+        have hke := hnd.1 e.1 (List.mem_map.2 ⟨e, he', rfl⟩)
+        rw [T.find_eq_findL hi.bst, htl, findL_insL_other (i, k, v) hke.symm,
+          ← T.find_eq_findL h.bst]
+        exact hfresh e (List.mem_cons_of_mem _ he')
+      obtain ⟨s2, he2, hi2, hsz2, hc2⟩ := ih hi hnd.2 hfresh1 (by omega)
+      refine ⟨s2, ?_, hi2, ?_, by rw [hc2, hc1]⟩
+      · simp only [Tree.insertAll, he]
+        exact he2
+      · rw [hsz2, hsz1, List.length_cons]
+        omega
 
 /-- Exactly `cap - size` further fresh entries fit. -/
 theorem Tree.fill_spec {c : TreeCfg} {s : Tree α β} (h : s.Inv c) (kvs : List (α × β))
@@ -275,22 +638,43 @@ theorem Tree.fill_spec {c : TreeCfg} {s : Tree α β} (h : s.Inv c) (kvs : List 
     (hlen : kvs.length + s.size = s.cap) :
     ∃ s', s.insertAll c kvs = some s' ∧ s'.Inv c ∧ s'.size = s'.cap ∧ s'.cap = s.cap ∧
       ∀ k v, s'.insert c k v = .ok (s', none) := by
-  sorry
-
-/-- Fewer than `cap - size` fresh entries never fill the tree. -/
-theorem Tree.fill_partial {c : TreeCfg} {s : Tree α β} (h : s.Inv c) (kvs : List (α × β))
-    (hnd : (kvs.map (·.1)).Pairwise (fun a b => a < b ∨ b < a))
-    (hfresh : ∀ e ∈ kvs, s.root.find e.1 = none)
-    (hlen : kvs.length + s.size ≤ s.cap) :
-    ∃ s', s.insertAll c kvs = some s' ∧ s'.Inv c ∧ s'.size = s.size + kvs.length ∧ s'.cap = s.cap := by
-  sorry
+  obtain ⟨s', he, hi, hsz, hc⟩ := Tree.fill_partial h kvs hnd hfresh (by omega)
+  refine ⟨s', he, hi, by omega, hc, ?_⟩
+  intro k v
+  rcases Tree.insert_spec hi k v with ⟨_, hins⟩ | ⟨_, hlt, _⟩
+  · exact hins
+  · omega
 
 /-- A released slot is the next one handed out. -/
 theorem Tree.free_reused {c : TreeCfg} {s s' : Tree α β} (h : s.Inv c) {k : α} {i : Nat} {v : β}
     (hf : s.root.find k = some (i, v)) (hr : s.remove k = .ok (s', some v)) (k' : α) (v' : β)
     (hk : s'.root.find k' = none) :
     ∃ s'', s'.insert c k' v' = .ok (s'', some i) := by
-  sorry
+  rcases Tree.remove_spec h k with ⟨hn, _⟩ | ⟨i', v', s1, hf', he, hi, _, hfree, hcap, _, hsz, _⟩
+  · rw [hf] at hn; cases hn
+  · rw [hf] at hf'
+    cases hf'
+    rw [hr] at he
+    cases he
+    have hle : s.size ≤ s.cap := by
+      have h1 := h.count
+      have h2 := h.seq_le
+      have h3 := T.length_slots s.root
+      have h4 := h.size_eq
+      rw [List.length_append] at h1
+      omega
+    have hnf : s'.size < s'.cap := by omega
+    obtain ⟨s2, j, ha, _, _, _, _, _, _, _, hcase⟩ := Tree.alloc_spec hi hnf
+    have hj : j = i := by
+      rcases hcase with ⟨h1, _⟩ | ⟨h1, _⟩
+      · rw [hfree] at h1
+        exact (List.cons.inj h1).1.symm
+      · rw [hfree] at h1
+        cases h1
+    subst hj
+    refine ⟨{ s2 with root := s2.root.ins j k' v' }, ?_⟩
+    unfold Tree.insert
+    rw [if_neg (by simp [hk]), if_neg (by simp [Tree.isFull]; omega), ha]
 
 /-- Growth: extending by `n` records and re-opening keeps the entries and adds exactly `n` slots. -/
 theorem Tree.grow_spec {c : TreeCfg} {s : Tree α β} (h : s.Inv c) (n : Nat)
@@ -299,11 +683,40 @@ theorem Tree.grow_spec {c : TreeCfg} {s : Tree α β} (h : s.Inv c) (n : Nat)
     ((s.extend n).openMut c).size = s.size ∧
     (0 < n → ((s.extend n).openMut c).cap = s.slots + n) ∧
     (s.extend n).root = s.root ∧ (s.extend n).cap = s.cap ∧ (s.extend n).size = s.size := by
-  sorry
+  have he := Tree.inv_extend h n hok
+  have ho := Tree.openMut_cap he
+  exact ⟨Tree.inv_openMut he, ho.2.1, ho.2.2.1, fun _ => ho.1, rfl, rfl, rfl⟩
 
 /-- Layout precondition follows from the invariant (so `decode (image s) = s` on reachable states). -/
 theorem Tree.Inv.layoutOk {c : TreeCfg} {s : Tree α β} (h : s.Inv c) : s.LayoutOk c := by
-  sorry
+  have hseq := h.seq_le
+  have hcap := h.cap_le
+  have hsl := h.slots_le
+  have hcnt := h.count
+  refine ⟨h.nodup, ?_, ?_, ?_⟩
+  · intro i hi
+    have := h.range i hi
+    omega
+  · intro i hi
+    have := h.range i (List.mem_append_right _ hi)
+    unfold Tree.seqReg
+    by_cases hw : s.seq ≤ c.W
+    · rw [Nat.mod_eq_of_lt (by omega)]; omega
+    · have e : s.seq = c.W + 1 := by omega
+      rw [e, Nat.mod_self]; omega
+  · unfold TreeImage.seqOfReg Tree.seqReg
+    by_cases hw : s.seq ≤ c.W
+    · rw [Nat.mod_eq_of_lt (by omega)]
+      have : s.seq ≠ 0 := by omega
+      simp [this]
+    · have e : s.seq = c.W + 1 := by omega
+      have hc : s.cap = c.W := by omega
+      have hwr : c.wrap = true := by
+        rcases h.nowrap with hw' | hw'
+        · exact hw'
+        · omega
+      rw [e, Nat.mod_self, hc, hwr]
+      simp
 
 end Lemmas
 end Stevia
